@@ -45,7 +45,14 @@ def r11_2(ctx):
     F = ctx.facts
 
     def fields_read(f, adt):
-        return {fl for (a, fl) in effects(f).reads if a == adt}
+        out = set()
+        for b in f.all_bodies():
+            out |= {fl for (a, fl) in effects(b).reads if a == adt}
+            # disjoint closure captures read `var.field` of the parent
+            for (a, fl) in effects(b).reads:
+                if a == "{closure}" and "__" in (fl or ""):
+                    out |= {x for x in fl.replace("_ref__", "", 1).split("__")[1:]}
+        return out
 
     def body(r):
         cmp_ = F.method(RULE, "cmp", trait="std::cmp::Ord")
@@ -53,29 +60,53 @@ def r11_2(ctx):
         pc = F.method(RULE, "partial_cmp", trait="std::cmp::PartialOrd")
         r.analysed(cmp_, eq, pc)
         r.ob("order:Rule::cmp:keys", fields_read(cmp_, RULE) == {"rank", "id"}, cmp_.site, "Ord::cmp reads %s" % sorted(fields_read(cmp_, RULE)))
-        r.ob("order:Rule::eq:keys", fields_read(eq, RULE) == {"rank", "id"}, eq.site, "PartialEq::eq reads %s (must equal the keys of cmp for a consistent total order)" % sorted(fields_read(eq, RULE)))
+        eq_deleg = not fields_read(eq, RULE) and any(cal and cal.local and cal.name == "cmp" and cal.adt == RULE for bi, t, cal in eq.calls())
+        r.ob("order:Rule::eq:keys", fields_read(eq, RULE) == {"rank", "id"} or eq_deleg, eq.site,
+             "PartialEq::eq %s (must equal the keys of cmp for a consistent total order)" % ("is cmp(..) == Equal" if eq_deleg else "reads %s" % sorted(fields_read(eq, RULE))))
         deleg = any(cal and cal.local and cal.name == "cmp" and cal.adt == RULE for bi, t, cal in pc.calls())
         r.ob("order:Rule::partial_cmp:delegates", deleg and not fields_read(pc, RULE), pc.site, "partial_cmp is Some(self.cmp(other))")
         # direction: other.key.cmp(&self.key) for both keys; rank decides first
-        pv = Prov(cmp_)
+        from riolib.prov import resolve_captures
         seen = {}
-        order = []
-        for bi, t, cal in cmp_.calls():
-            if cal and cal.name == "cmp" and cal.def_trait == "std::cmp::Ord":
-                a, b = pv.operand(t["args"][0]), pv.operand(t["args"][1])
-                key = [x[2] for x in walk(a) if x[0] == "field"]
-                key = key[0] if key else "?"
-                seen[key] = (mentions(a, lambda x: x == ("param", 2)) and not mentions(a, lambda x: x == ("param", 1)), mentions(b, lambda x: x == ("param", 1)) and not mentions(b, lambda x: x == ("param", 2)))
-                order.append((key, bi))
+        order = []  # (key, body, block)
+        for body_ in cmp_.all_bodies():
+            pv = Prov(body_)
+            for bi, t, cal in body_.calls():
+                if cal and cal.name == "cmp" and cal.def_trait == "std::cmp::Ord":
+                    a, b = pv.operand(t["args"][0]), pv.operand(t["args"][1])
+                    if body_ is not cmp_:
+                        a, b = resolve_captures(a, body_, copies=False), resolve_captures(b, body_, copies=False)
+                    key = [x[2] for x in walk(a) if x[0] == "field" and x[2] in ("rank", "id")]
+                    key = key[0] if key else "?"
+                    seen[key] = (mentions(a, lambda x: x == ("param", 2)) and not mentions(a, lambda x: x == ("param", 1)), mentions(b, lambda x: x == ("param", 1)) and not mentions(b, lambda x: x == ("param", 2)))
+                    order.append((key, body_, bi))
         for k in ("rank", "id"):
             r.ob("order:Rule::cmp:descending:%s" % k, seen.get(k) == (True, True), cmp_.site, "key `%s` is compared as other.%s.cmp(&self.%s): %s" % (k, k, k, seen.get(k)))
-        ok_first = len(order) == 2 and order[0][0] == "rank" and cmp_.dominates(order[0][1], order[1][1])
-        r.ob("order:Rule::cmp:rank-first", ok_first, cmp_.site, "rank is compared first, id breaks ties (%s)" % [k for k, _ in order])
-        # the id comparison result is returned unchanged; the rank result is returned iff != Equal
-        paths = [p for p in Sym(cmp_).paths() if p.end[0] == "ret"]
-        rets = {p.end[1] for p in paths}
-        ok_ret = all(e[0] == "call" and e[1].endswith("::cmp") and "Ord" in e[1] for e in rets) and len(rets) == 2
-        r.ob("order:Rule::cmp:returns-comparisons", ok_ret, cmp_.site, "cmp returns one of the two key comparisons unchanged: %s" % [show(e, cmp_) for e in rets])
+        # rank decides first, id breaks ties: either `if rank != Equal {return rank}; id` in one body, or
+        # rank.then_with(|| id) with the id comparison inside the closure
+        then_with = [(bi, t) for bi, t, cal in cmp_.calls() if cal and cal.name in ("then_with", "then") and cal.adt == "std::cmp::Ordering"]
+        by_key = {k: (b_, bi) for k, b_, bi in order}
+        ok_first = False
+        ok_ret = False
+        if len(order) == 2 and set(by_key) == {"rank", "id"}:
+            rb, ib = by_key["rank"], by_key["id"]
+            if rb[0] is cmp_ and ib[0] is cmp_ and not then_with:
+                ok_first = cmp_.dominates(rb[1], ib[1])
+                paths = [p for p in Sym(cmp_).paths() if p.end[0] == "ret"]
+                rets = {p.end[1] for p in paths}
+                ok_ret = all(e[0] == "call" and e[1].endswith("::cmp") and "Ord" in e[1] for e in rets) and len(rets) == 2
+            elif rb[0] is cmp_ and len(then_with) == 1:
+                # Ordering::then_with(rank_cmp, closure) / then(rank_cmp, id_cmp): the receiver is the rank comparison
+                pvc = Prov(cmp_)
+                recv = pvc.operand(then_with[0][1]["args"][0])
+                ok_first = recv[0] == "call" and recv[1].endswith("::cmp") and mentions(recv, lambda x: x[0] == "field" and x[2] == "rank")
+                rets = {p.end[1] for p in Sym(cmp_).paths() if p.end[0] == "ret"}
+                ok_ret = len(rets) == 1 and all(e[0] == "call" and e[1].rsplit("::", 1)[1] in ("then_with", "then") for e in rets)
+                if ib[0] is not cmp_:
+                    crets = {p.end[1] for p in Sym(ib[0]).paths() if p.end[0] == "ret"}
+                    ok_ret = ok_ret and len(crets) == 1 and all(e[0] == "call" and e[1].endswith("::cmp") for e in crets)
+        r.ob("order:Rule::cmp:rank-first", ok_first, cmp_.site, "rank is compared first, id breaks ties (%s)" % [k for k, _, _ in order])
+        r.ob("order:Rule::cmp:returns-comparisons", ok_ret, cmp_.site, "cmp returns the rank comparison unless Equal, else the id comparison, unchanged")
         # Route delegates to its handler, same operand order
         for name, trait in (("cmp", "std::cmp::Ord"), ("partial_cmp", "std::cmp::PartialOrd"), ("eq", "std::cmp::PartialEq")):
             f = F.method(ROUTE, name, trait=trait)
